@@ -70,6 +70,19 @@ class SymH:
         out = out.view(symnp.SymArray)
         return out
 
+    def angle(self, wname):
+        """A first-quadrant angle in (0, pi/2) given by its half-angle tangent w in (0,1) (declared as a parameter):
+        cos = (1-w^2)/(1+w^2), sin = 2w/(1+w^2); np.cos/np.sin of it are rational in w."""
+        w = self.ctx.gens[wname]
+        den = 1 + w * w
+        a = core.new_angle(self.ctx, (1 - w * w) / den, 2 * w / den)
+        k = a.as_k()
+        for n, kk in self.ctx.derived.items():
+            pass
+        name = [nm for nm, key in self.ctx.derived_def.items() if key[0] == 'angle' and self.ctx.gens[nm] == k][0]
+        self.ctx.info[name]['first_quadrant'] = True
+        return a
+
     def frac(self, a, b=1):
         return Fraction(a, b)    # always a Fraction: int/int in harness code must never become a float
 
@@ -179,7 +192,7 @@ class SymH:
         return C.view(symnp.SymArray)
 
     # -- obligations --------------------------------------------------------------------------
-    def eq(self, label, a, b, scale=None, rtol=None):
+    def eq(self, label, a, b, scale=None, rtol=None, tv2=True):
         a = symnp.asarray(a) if isinstance(a, (_np.ndarray, list, tuple)) else a
         b = symnp.asarray(b) if isinstance(b, (_np.ndarray, list, tuple)) else b
         sa, sb = _np.shape(a), _np.shape(b)
@@ -191,7 +204,7 @@ class SymH:
                 return
         if self.cfg.get('__twin__'):
             b = _twin_perturb(b)
-        self.obligations.append(Obligation(label, 'eq', a, b))
+        self.obligations.append(Obligation(label, 'eq', a, b, '' if tv2 else 'notv2'))
 
     def holds(self, label, cond, note=''):
         if self.cfg.get('__twin__'):
